@@ -146,11 +146,43 @@ std::string take_dlerror()
     return e ? std::string(e) : std::string();
 }
 
+// every dl exception the case catches is COPIED out of its handler and kept; its diagnostic is read at once (unless the
+// operation is a "quiet" one) and/or later, after further loader operations
+struct Caught
+{
+    nitro::dl::exception e;
+    std::string expected; // what the loader said about this very failure (asked directly before the operation)
+    std::string name;     // the file / symbol name what() must mention
+    bool read;
+    std::string last;
+};
+std::vector<Caught> caught;
+
+// "DWS": diagnostic is the loader's text of this failure / what() names the file or symbol / same text as at the previous read
+std::string read_caught(Caught& c)
+{
+    const std::string d = c.e.dlerror();
+    const bool D = !c.expected.empty() && d == c.expected;
+    const bool W = std::string(c.e.what()).find(c.name) != std::string::npos;
+    const bool S = !c.read || d == c.last;
+    c.read = true;
+    c.last = d;
+    return std::string(D ? "1" : "0") + (W ? "1" : "0") + (S ? "1" : "0");
+}
+std::string on_caught(const nitro::dl::exception& e, const std::string& expected, const std::string& name, bool quiet)
+{
+    caught.push_back(Caught{ e, expected, name, false, std::string() });
+    if (quiet) return "raise:-";
+    const std::string bits = read_caught(caught.back());
+    return std::string("raise:") + (bits == "111" ? "1" : "0");
+}
+
 std::string run(int n, const std::string& opsw)
 {
     for (auto* t : toks) delete t;
     toks.clear();
     null_closes = use_after_close = double_closes = 0;
+    caught.clear();
     dlerror();
     std::string out;
     {
@@ -163,8 +195,9 @@ std::string run(int n, const std::string& opsw)
             auto f = split_on(op, '.');
             auto arg = [&](std::size_t k) { return static_cast<std::size_t>(std::stoul(f.at(k))); };
             std::string r = "skip";
-            if (f[0] == "op")
+            if (f[0] == "op" || f[0] == "oq")
             {
+                const bool quiet = f[0] == "oq";
                 std::size_t i = arg(1);
                 int file = static_cast<int>(arg(2));
                 if (valid(i) && sl[i].empty())
@@ -184,12 +217,53 @@ std::string run(int n, const std::string& opsw)
                     }
                     catch (const nitro::dl::exception& e)
                     {
-                        r = std::string("raise:") + ((!expected.empty() && e.dlerror() == expected) ? "1" : "0");
+                        r = on_caught(e, expected, file == 2 ? std::string("main program") : path_of(file), quiet);
                     }
                 }
             }
-            else if (f[0] == "ld")
+            else if (f[0] == "sc" || f[0] == "sq")
             {
+                // open + load with the dl object INSIDE the try block: a failed look-up unwinds through its destructor
+                // (dlclose) before the handler runs; on success the symbol outlives the scoped library object
+                const bool quiet = f[0] == "sq";
+                std::size_t i = arg(1), t = arg(2);
+                int file = static_cast<int>(arg(3)), sy = static_cast<int>(arg(4));
+                if (valid(i) && valid(t) && i != t && sl[i].empty() && sl[t].empty())
+                {
+                    std::string expected, name;
+                    void* probe = file == 2 ? __real_dlopen(nullptr, RTLD_NOW) : __real_dlopen(path_of(file).c_str(), RTLD_NOW);
+                    if (!probe) { expected = take_dlerror(); name = path_of(file); }
+                    else
+                    {
+                        dlerror();
+                        (void)__real_dlsym(probe, sym_name(sy).c_str());
+                        expected = take_dlerror();
+                        name = sym_name(sy);
+                        __real_dlclose(probe);
+                    }
+                    dlerror();
+                    try
+                    {
+                        nitro::dl::dl lib = file == 2 ? nitro::dl::dl(nitro::dl::self) : nitro::dl::dl(path_of(file));
+                        int h = tok_id(lib.get().get());
+                        sl[i].sym.emplace(lib.load<int(int)>(sym_name(sy)));
+                        sl[i].h = h;
+                        r = "ok";
+                    }
+                    catch (const nitro::dl::exception& e)
+                    {
+                        r = on_caught(e, expected, name, quiet);
+                    }
+                }
+            }
+            else if (f[0] == "rx")
+            {
+                std::size_t k = arg(1);
+                if (k < caught.size()) r = "diag:" + read_caught(caught[k]);
+            }
+            else if (f[0] == "ld" || f[0] == "lq")
+            {
+                const bool quiet = f[0] == "lq";
                 std::size_t i = arg(1), j = arg(2);
                 int s = static_cast<int>(arg(3));
                 if (valid(i) && valid(j) && sl[i].empty() && sl[j].lib && sl[j].lib->get() != nullptr)
@@ -210,7 +284,7 @@ std::string run(int n, const std::string& opsw)
                     }
                     catch (const nitro::dl::exception& e)
                     {
-                        r = std::string("raise:") + ((!expected.empty() && e.dlerror() == expected) ? "1" : "0");
+                        r = on_caught(e, expected, sym_name(s), quiet);
                     }
                 }
             }
@@ -301,6 +375,7 @@ std::string run(int n, const std::string& opsw)
         for (auto& s : sl) s.clear();
         out += "fin|" + state_obs(sl);
     }
+    caught.clear();
     if (double_closes) out += ";DOUBLE-CLOSE";
     return out;
 }
